@@ -43,7 +43,8 @@ theorem timing_run_from (c : Controller.Cfg) (hwf : WF3 c) (inputs : List (Array
     obtain ⟨ht', hwin⟩ := tinv_step c hwf s g ins m hc hc' ht
     obtain ⟨m', hm'⟩ := ih (step c s ins).1 (gNext c s g ins) _ hc' ht' (fun x hx => hins x (by simp [hx]))
     refine ⟨m', ?_⟩
-    simp only [issueTrace, TimingMon.run, TimingMon.step, hall, if_true, hwin, decide_true]
+    have hex := evs_exclusive c hwf.wf2.abits s ins
+    simp only [issueTrace, TimingMon.run, TimingMon.step, hall, hex, Bool.and_self, if_true, hwin, decide_true]
     exact hm'
 
 /-- **C03, composed controller, every configuration, every input sequence, unbounded time** (controller-cycle layer). -/
@@ -62,6 +63,14 @@ example : WF3 C02.cfgC :=
 example : ((issueTrace C02.cfgC (init C02.cfgC) ((List.range 120).map C02.insC)).flatten.length ≥ 40) ∧
     (TimingMon.run (reqOf C02.cfgC) (St.init (reqOf C02.cfgC))
       (issueTrace C02.cfgC (init C02.cfgC) ((List.range 120).map C02.insC))).isSome = true := by
+  decide +kernel
+
+/-- the monitor's same-cycle rule: an ACT and a RD of the same bank in ONE controller cycle (distance 0 < tRCD) are rejected even
+though each of them is allowed with respect to the earlier cycles; commands of different banks may share a cycle; and every cycle
+of the controller passes it (`evs_exclusive`, used in `timing_run_from`) -/
+example : (TimingMon.step (reqOf C02.cfgC) (St.init (reqOf C02.cfgC)) [.act 0, .rd 0 false]).isNone = true ∧
+    (TimingMon.step (reqOf C02.cfgC) (St.init (reqOf C02.cfgC)) [.act 0, .act 1]).isNone = true ∧
+    (TimingMon.step (reqOf C02.cfgC) (St.init (reqOf C02.cfgC)) [.act 0, .rd 1 false]).isSome = true := by
   decide +kernel
 
 end C03
